@@ -5,6 +5,7 @@
 package gpbft
 
 import (
+	"context"
 	"fmt"
 	"io"
 	"sort"
@@ -199,3 +200,26 @@ func (p *Participant) VerifDump(w io.Writer, base time.Time) {
 	}
 	fmt.Fprint(w, ")")
 }
+
+// VerifValidator is the production caching validator with a harness-controlled progress function and
+// cache geometry.
+type VerifValidator struct {
+	v     *cachingValidator
+	cache interface{ RemoveGroupsLessThan(uint64) bool }
+}
+
+func VerifNewValidator(nn NetworkName, verifier Verifier, cp CommitteeProvider, progress func() InstanceProgress, maxGroups, maxPerGroup int, lookback uint64) *VerifValidator {
+	c := newVerifGroupedSet(maxGroups, maxPerGroup)
+	return &VerifValidator{v: newValidator(nn, verifier, cp, progress, c, lookback), cache: c}
+}
+
+func (v *VerifValidator) ValidateMessage(ctx context.Context, m *GMessage) (ValidatedMessage, error) {
+	return v.v.ValidateMessage(ctx, m)
+}
+func (v *VerifValidator) PartiallyValidateMessage(ctx context.Context, m *PartialGMessage) (PartiallyValidatedMessage, error) {
+	return v.v.PartiallyValidateMessage(ctx, m)
+}
+func (v *VerifValidator) FullyValidateMessage(ctx context.Context, m PartiallyValidatedMessage) (ValidatedMessage, error) {
+	return v.v.FullyValidateMessage(ctx, m)
+}
+func (v *VerifValidator) EvictGroupsBelow(instance uint64) { v.cache.RemoveGroupsLessThan(instance) }
